@@ -50,6 +50,58 @@ theorem hB_of (hd : Nat) (B : List Nat) : ∃ P', hd :: B.reverse = P' ++ [first
   | nil => exact ⟨[], by simp [firstOr]⟩
   | cons b B' => exact ⟨hd :: B'.reverse, by simp [firstOr]⟩
 
+/-- following `next` visits exactly the segment (enough fuel) -/
+theorem walk_lseg (h : PHeap α) (stop : Nat) (ns : List Nat) : ∀ (a fuel : Nat), lseg h.nextOf a ns stop →
+    (∀ n ∈ ns, n ≠ stop ∧ n ≠ 0) → ns.length ≤ fuel → walk h stop fuel a = ns := by
+  induction ns with
+  | nil =>
+    intro a fuel hl _ _
+    have : a = stop := by simpa [lseg] using hl
+    cases fuel <;> simp [walk, this]
+  | cons n t ih =>
+    intro a fuel hl hne hf
+    obtain ⟨f, rfl⟩ : ∃ f, fuel = f + 1 := ⟨fuel - 1, by simp at hf; omega⟩
+    obtain ⟨rfl, hl'⟩ : a = n ∧ lseg h.nextOf (h.nextOf n) t stop := by simpa [lseg] using hl
+    have h1 := hne a (by simp)
+    simp only [walk, h1.1, h1.2, or_self, if_false, List.cons.injEq, true_and]
+    exact ih _ f hl' (fun x hx => hne x (List.mem_cons_of_mem _ hx)) (by simp at hf; omega)
+
+/-- `begin()` … `end()` of a well-formed list enumerates exactly its linked nodes -/
+theorem nodesOf_of_pwf {h : PHeap α} {l : PL} {ns fs : List Nat} (w : PWF h l ns fs) : nodesOf h l = ns := by
+  unfold nodesOf
+  rw [if_neg w.head_ne]
+  have hnd : ns.Nodup ∧ l.head ∉ ns := by
+    have := w.nodup
+    simp only [List.nodup_cons, List.nodup_append, List.mem_append, not_or] at this
+    exact ⟨this.2.1, this.1.1⟩
+  have hl : lseg h.nextOf (h.nextOf l.head) ns l.head := by
+    have := w.fwd
+    simp only [lseg, true_and] at this
+    exact this
+  apply walk_lseg h l.head ns _ _ hl
+  · intro n hn
+    exact ⟨fun e => hnd.2 (e ▸ hn), (w.valid n (by simp [hn])).1⟩
+  · exact nodup_length_le hnd.1 (fun a ha => (w.valid a (by simp [ha])).2)
+
+theorem posAt_pwf {h : PHeap α} {l : PL} {ns fs : List Nat} (w : PWF h l ns fs) (idx : Nat) (hi : idx ≤ ns.length) :
+    posAt h l idx = some (firstOr (ns.drop idx) l.head) := by
+  unfold posAt
+  simp only [nodesOf_of_pwf w, endPos, firstOr, List.head?_drop]
+  by_cases he : idx = ns.length
+  · simp [he]
+  · have hlt : idx < ns.length := by omega
+    simp [he, List.getElem?_eq_getElem hlt]
+
+theorem map_take_some {β : Type} {ns : List Nat} {f : Nat → Option β} {s : List β} (hc : ns.map f = s.map some) (i : Nat) :
+    (ns.take i).map f = (s.take i).map some ∧ (ns.drop i).map f = (s.drop i).map some := by
+  refine ⟨by rw [List.map_take, List.map_take, hc], by rw [List.map_drop, List.map_drop, hc]⟩
+
+theorem pwf_mem_not_free {h : PHeap α} {l : PL} {ns fs : List Nat} (w : PWF h l ns fs) {m : Nat} (hm : m ∈ fs) :
+    m ∉ ns := by
+  have := w.nodup
+  simp only [List.nodup_cons, List.nodup_append] at this
+  intro hin; exact this.2.2.2 m hin m hm rfl
+
 /-- one call preserves the representation -/
 theorem pstep_refines (h : PHeap α) (l : PL) (s s' : List α) (op : POp α) (r : Rep h l s)
     (hs : pspecStep s op = some s') : ∃ h' l', pstep h l op = some (h', l') ∧ Rep h' l' s' := by
@@ -159,6 +211,70 @@ theorem pstep_refines (h : PHeap α) (l : PL) (s s' : List α) (op : POp α) (r 
       cases h.nodes.length <;> simp [clearLoop]
     · obtain ⟨h', l', hcl, w', _, _, hl⟩ := clear_refines h l ns fs w
       exact ⟨h', l', by simp [pstep, hcl], by omega, Or.inr ⟨_, _, w', by simp⟩⟩
+  | insertAt idx x =>
+    simp only [pspecStep] at hs
+    split at hs
+    · rename_i hle
+      simp only [Option.some.injEq] at hs; subst hs
+      rcases r with ⟨hh, hf, rfl⟩ | ⟨ns, fs, w, hc⟩
+      · have hi : idx = 0 := by simpa using hle
+        subst hi
+        obtain ⟨h', l', hcn, w', _, hv, _, hl⟩ := constructNode_first_refines h l x hh hf hlen
+        refine ⟨h', l', by simp [pstep, posAt, nodesOf, endPos, hh, hcn], by omega, Or.inr ⟨_, _, w', by simp [hv]⟩⟩
+      · have hlens : ns.length = s.length := by simpa using congrArg List.length hc
+        have hi : idx ≤ ns.length := by omega
+        obtain ⟨P', hB⟩ := hB_of l.head (ns.drop idx)
+        have hpos := posAt_pwf w idx hi
+        have hsplit : ns.take idx ++ ns.drop idx = ns := List.take_append_drop idx ns
+        obtain ⟨hcA, hcB⟩ := map_take_some hc idx
+        have hltA : ∀ n ∈ ns.take idx, n ∈ ns := fun n hn => List.mem_of_mem_take hn
+        have hltB : ∀ n ∈ ns.drop idx, n ∈ ns := fun n hn => List.mem_of_mem_drop hn
+        cases fs with
+        | nil =>
+          obtain ⟨h', l', hcn, w', _, hv, hvo, hl⟩ :=
+            constructNode_alloc_refines h l x (ns.take idx) (ns.drop idx) (firstOr (ns.drop idx) l.head) P'
+              (by rw [hsplit]; exact w) hB
+          refine ⟨h', l', by simp [pstep, hpos, hcn], by omega, Or.inr ⟨_, _, w', ?_⟩⟩
+          rw [List.map_append, List.map_cons, List.map_append, List.map_cons, hv,
+            map_val_congr (fun n hn => hvo n (pwf_lt w (hltA n hn))),
+            map_val_congr (fun n hn => hvo n (pwf_lt w (hltB n hn))), hcA, hcB]
+        | cons m fs' =>
+          obtain ⟨h', l', hcn, w', _, hv, hvo, hl⟩ :=
+            constructNode_refines h l x (ns.take idx) (ns.drop idx) fs' m (firstOr (ns.drop idx) l.head) P'
+              (by rw [hsplit]; exact w) hB
+          have hm : m ∉ ns := pwf_mem_not_free w (by simp)
+          refine ⟨h', l', by simp [pstep, hpos, hcn], by omega, Or.inr ⟨_, _, w', ?_⟩⟩
+          rw [List.map_append, List.map_cons, List.map_append, List.map_cons, hv,
+            map_val_congr (fun n hn => hvo n (fun e => hm (e ▸ hltA n hn))),
+            map_val_congr (fun n hn => hvo n (fun e => hm (e ▸ hltB n hn))), hcA, hcB]
+    · cases hs
+  | eraseAt idx =>
+    simp only [pspecStep] at hs
+    split at hs
+    · rename_i hlt
+      simp only [Option.some.injEq] at hs; subst hs
+      rcases r with ⟨_, _, rfl⟩ | ⟨ns, fs, w, hc⟩
+      · simp at hlt
+      · have hlens : ns.length = s.length := by simpa using congrArg List.length hc
+        have hi : idx < ns.length := by omega
+        have hdrop : ns.drop idx = ns[idx] :: ns.drop (idx + 1) := List.drop_eq_getElem_cons hi
+        have hsplit : ns.take idx ++ ns[idx] :: ns.drop (idx + 1) = ns := by
+          rw [← hdrop]; exact List.take_append_drop idx ns
+        have w2 : PWF h l (ns.take idx ++ ns[idx] :: ns.drop (idx + 1)) fs := by rw [hsplit]; exact w
+        obtain ⟨hmA, hmB, hmh, hm0⟩ := pwf_not_mem w2
+        obtain ⟨P', hB⟩ := hB_of l.head (ns.drop (idx + 1))
+        have hpos : posAt h l idx = some ns[idx] := by
+          rw [posAt_pwf w idx (by omega)]; simp [firstOr, List.getElem?_eq_getElem hi]
+        obtain ⟨h', l', hfn, w', _, hvo, hl⟩ :=
+          freeNode_refines h l (ns.take idx) (ns.drop (idx + 1)) fs ns[idx] (firstOr (ns.drop (idx + 1)) l.head) P' w2 hB
+        refine ⟨h', l', by simp [pstep, nodesOf_of_pwf w, hi, hpos, erase, hm0, hmh, hfn], by omega,
+          Or.inr ⟨_, _, w', ?_⟩⟩
+        obtain ⟨hcA, _⟩ := map_take_some hc idx
+        obtain ⟨_, hcB⟩ := map_take_some hc (idx + 1)
+        rw [List.map_append, map_val_congr (fun n hn => hvo n (fun e => hmA (e ▸ hn))),
+          map_val_congr (fun n hn => hvo n (fun e => hmB (e ▸ hn))), hcA, hcB, List.eraseIdx_eq_take_drop_succ,
+          List.map_append]
+    · cases hs
 
 theorem prun_refines (ops : List (POp α)) : ∀ (h : PHeap α) (l : PL) (s s' : List α), Rep h l s →
     pspecRun s ops = some s' → ∃ h' l', prun h l ops = some (h', l') ∧ Rep h' l' s' := by
@@ -174,39 +290,6 @@ theorem prun_refines (ops : List (POp α)) : ∀ (h : PHeap α) (l : PL) (s s' :
       obtain ⟨h', l', hp, r'⟩ := pstep_refines h l s s1 op r h1
       obtain ⟨h'', l'', hp', r''⟩ := ih h' l' s1 s' r' hs
       exact ⟨h'', l'', by simp [prun, hp, hp'], r''⟩
-
-/-- following `next` visits exactly the segment (enough fuel) -/
-theorem walk_lseg (h : PHeap α) (stop : Nat) (ns : List Nat) : ∀ (a fuel : Nat), lseg h.nextOf a ns stop →
-    (∀ n ∈ ns, n ≠ stop ∧ n ≠ 0) → ns.length ≤ fuel → walk h stop fuel a = ns := by
-  induction ns with
-  | nil =>
-    intro a fuel hl _ _
-    have : a = stop := by simpa [lseg] using hl
-    cases fuel <;> simp [walk, this]
-  | cons n t ih =>
-    intro a fuel hl hne hf
-    obtain ⟨f, rfl⟩ : ∃ f, fuel = f + 1 := ⟨fuel - 1, by simp at hf; omega⟩
-    obtain ⟨rfl, hl'⟩ : a = n ∧ lseg h.nextOf (h.nextOf n) t stop := by simpa [lseg] using hl
-    have h1 := hne a (by simp)
-    simp only [walk, h1.1, h1.2, or_self, if_false, List.cons.injEq, true_and]
-    exact ih _ f hl' (fun x hx => hne x (List.mem_cons_of_mem _ hx)) (by simp at hf; omega)
-
-/-- `begin()` … `end()` of a well-formed list enumerates exactly its linked nodes -/
-theorem nodesOf_of_pwf {h : PHeap α} {l : PL} {ns fs : List Nat} (w : PWF h l ns fs) : nodesOf h l = ns := by
-  unfold nodesOf
-  rw [if_neg w.head_ne]
-  have hnd : ns.Nodup ∧ l.head ∉ ns := by
-    have := w.nodup
-    simp only [List.nodup_cons, List.nodup_append, List.mem_append, not_or] at this
-    exact ⟨this.2.1, this.1.1⟩
-  have hl : lseg h.nextOf (h.nextOf l.head) ns l.head := by
-    have := w.fwd
-    simp only [lseg, true_and] at this
-    exact this
-  apply walk_lseg h l.head ns _ _ hl
-  · intro n hn
-    exact ⟨fun e => hnd.2 (e ▸ hn), (w.valid n (by simp [hn])).1⟩
-  · exact nodup_length_le hnd.1 (fun a ha => (w.valid a (by simp [ha])).2)
 
 /-- what `Rep` says about the observable list: following `next` from the head yields the values -/
 theorem rep_toList {h : PHeap α} {l : PL} {s : List α} (r : Rep h l s) : toList h l = s := by
